@@ -26,7 +26,7 @@ INFO = {
         'work abstraction: three independent flags - queue non-empty, something executing (needs the queue), a worker busy - toggled by events (farm._busy / schedule.que set accordingly)',
         'tools.submit.automatic / already_applied / mail are stubs; the busy flag of the real Defer admits one submission at a time',
     ],
-    'outside': ['real thread timing between a poller leaving its loop and its continuation running', 'longer histories'],
+    'outside': ['real thread timing between a poller leaving its loop and its continuation running', 'what a poller keeps in locals across iterations of its sleep loop (re-evaluated from its first line at every completion attempt)', 'longer histories'],
 }
 
 
